@@ -228,7 +228,7 @@ fn judge_batch(runner: &mut Runner, hooks: &Hooks, batch: Vec<Case>, check_deter
                 Outcome::Ok => stats.model_ok += 1,
                 Outcome::Uncaught(_) => stats.model_uncaught += 1,
             }
-            let h = fnv64(&src);
+            let h = fnv64(&format!("{}\u{0}{:?}", src, modules_text));
             if stats.distinct.insert(h) && (hooks.nontrivial)(case, &model) {
                 stats.nontrivial.insert(h);
             }
